@@ -717,7 +717,7 @@ func run(ctx *xplor.Ctx) {
 	}
 	n1, n2 := 4, 5
 	if ctx.Tier == "thorough" {
-		n1, n2 = 6, 7
+		n1, n2 = 7, 8
 	}
 	pow := func(n int) int {
 		r := 1
